@@ -7,9 +7,9 @@
    fill_buf }` is the flat loop "consume one item from the window if it is complete, otherwise
    fill_buf" -- same sequence of advance/fill_buf calls.
    Error classes: E_LexEof / E_InvalidRgb (ReaderErrorKind::Lexer), E_Io (Read), E_BufferFull.
-   buffer.rs:86 answers Ok(0) when the window already fills the buffer (DESIGN section 7-F), so a
-   token larger than the buffer surfaces as Lexer(Eof); the BufferFull branch is dead code and
-   FillFull is never produced by BufWin.bw_fill_buf.
+   buffer.rs: when the unconsumed window already fills a non-empty buffer fill_buf answers
+   BufferFull (FillFull), so a token larger than the buffer surfaces as E_BufferFull; Ok(0) in
+   that situation only for the slice-backed window (cap 0).
    No proofs in this file. *)
 From JV Require Import Bytes Tables BinPrim BufWin BinLexer.
 Open Scope nat_scope.
